@@ -129,12 +129,12 @@ Observe(A) ==
 TInc == Observe(Inc)            TDec == Observe(Dec)
 TRight == Observe(Right)        TLeft == Observe(Left)
 TOpen == Observe(Open)          TClose == Observe(Close)
-TComment == Observe(Comment)
+TComment == Observe(Comment)    TAccel == Observe(Accel)
 TOut == Observe(Out)            TOutRefused == Observe(OutRefused)
 TIn == Observe(In)              TInFailed == Observe(InFailed)      TInMissing == Observe(InMissing)
 THalt == Observe(Halt)          TCapped == Observe(Capped)
 
-TraceNext == \/ TInc \/ TDec \/ TRight \/ TLeft \/ TOpen \/ TClose \/ TComment
+TraceNext == \/ TInc \/ TDec \/ TRight \/ TLeft \/ TOpen \/ TClose \/ TComment \/ TAccel
              \/ TOut \/ TOutRefused \/ TIn \/ TInFailed \/ TInMissing \/ THalt \/ TCapped
 
 TraceSpec == TraceInit /\ [][TraceNext]_vars
